@@ -9,6 +9,7 @@ extern const int cfg_kind;  /* 0 submit cipher, 1 flush cipher, 2 submit hash, 3
 extern const int cfg_mode, cfg_key, cfg_dir, cfg_hash;
 static IMB_MGR st;
 static IMB_JOB job;
+static IMB_JOB jobs2[2];
 int
 main(void)
 {
@@ -36,6 +37,10 @@ main(void)
         case 5: (void) CALL_FLUSH_CIPHER(&st, &job); break;
         case 6: (void) CALL_SUBMIT_HASH(&st, &job); break;
         case 7: (void) CALL_FLUSH_HASH(&st, &job); break;
+        /* synchronous bursts (C09): two jobs, no-check variants; the private submit+flush loops run over the same managers */
+        case 8: jobs2[0] = job; jobs2[1] = job; (void) SUBMIT_CIPHER_BURST_NOCHECK(&st, jobs2, 2, (IMB_CIPHER_MODE) cfg_mode, (IMB_CIPHER_DIRECTION) cfg_dir, (IMB_KEY_SIZE_BYTES) cfg_key); break;
+        case 9: jobs2[0] = job; jobs2[1] = job; (void) SUBMIT_HASH_BURST_NOCHECK(&st, jobs2, 2, (IMB_HASH_ALG) cfg_hash); break;
+        case 10: jobs2[0] = job; jobs2[1] = job; (void) SUBMIT_AEAD_BURST_NOCHECK(&st, jobs2, 2, (IMB_CIPHER_MODE) cfg_mode, (IMB_CIPHER_DIRECTION) cfg_dir, (IMB_KEY_SIZE_BYTES) cfg_key); break;
         }
         return 0;
 }
